@@ -24,12 +24,25 @@ class World:
         self.Entry = TTup(self.Elem, TReal, TBool)
         self.Q = TList(self.Entry)
         self.pred = z3.Function("predicate", self.ES, z3.BoolSort())
+        self.user_eq = z3.Function("elem__eq__", self.ES, self.ES, z3.BoolSort())
         I, R, B = z3.IntSort(), z3.RealSort(), z3.BoolSort()
         self.ghost_sorts = {"pidx": z3.ArraySort(self.ES, I), "ptime": z3.ArraySort(self.ES, R), "pdel": z3.ArraySort(self.ES, B), "gone": z3.ArraySort(self.ES, B),
                             "pos": z3.ArraySort(self.ES, I), "nput": I, "now": R}
 
     def elem(self, q: VList, a):
         return self.Entry.proj[0](q.arr[a])
+
+    def eq(self, ex, l, r):
+        """`==` on elements is the elements' own __eq__ (InotifyEvent compares by key): reflexive, but distinct
+        elements may compare equal - identity (`is`) is the sort's equality"""
+        if isinstance(l, VRef) and isinstance(r, VRef) and l.ty is self.Elem and r.ty is self.Elem:
+            return z3.Or(l.t == r.t, self.user_eq(l.t, r.t))
+        return NotImplemented
+
+    def is_(self, ex, l, r):
+        if isinstance(l, VRef) and isinstance(r, VRef) and l.ty is self.Elem and r.ty is self.Elem:
+            return l.t == r.t
+        return NotImplemented
 
     def inv(self, st):
         q, g = st["q"], st
